@@ -88,11 +88,18 @@ def stream_problems(D, N, bs, nb, skip):
       problems.append(f'window {w} is not a permutation of the dataset: {win}')
       break
   counts = [0] * N
+  at_level = {0: N}          # usage count -> number of examples used that often (O(1) max/min upkeep)
+  lo = 0
   for t, x in enumerate(D):
-    counts[x] += 1
-    if max(counts) - min(counts) > 1:
+    c = counts[x]
+    counts[x] = c + 1
+    at_level[c] -= 1
+    at_level[c + 1] = at_level.get(c + 1, 0) + 1
+    if at_level[lo] == 0:
+      lo += 1
+    if c + 1 - lo > 1:
       problems.append(f'usage counts differ by more than one after {t + 1} draws '
-                      f'(example {x} used {counts[x]} times, another {min(counts)} times)')
+                      f'(example {x} used {c + 1} times, another {lo} times)')
       break
   need = -(-N // bs)
   if nb >= need and set(D[:need * bs]) != set(full):
@@ -160,6 +167,11 @@ class C04(core.Property):
       for N in range(1, 6):
         for bs in range(1, 2 * N + 2):
           yield {'sweep': [N, bs], 'Es': [None, 1, 2, 3], 'Ss': [None, 0, 1, 3, 4]}
+    # large datasets around the signed/unsigned 16-bit boundaries (index-buffer dtype slips)
+    big = [32767, 32768, 32769, 40000, 65535, 65536, 70001]
+    for N in (big if tier == 'thorough' else [32769, rng.choice(big), 65536]):
+      yield {'configs': [{'N': N, 'bs': rng.choice([4096, 5000, 8192]), 'E': 1, 'S': None, 'drop': False,
+                          'skip': sk, 'seed': rng.randrange(100), 'feats': [], 'pre': []} for sk in (True, False)]}
     n = 250 if tier == 'quick' else 1200
     for _ in range(n):
       yield {'configs': [self._gen_cfg(rng) for _ in range(15)]}
@@ -269,6 +281,16 @@ class C04(core.Property):
                         'disturbs one of them')
       if fresh != ids:
         problems.append('fixed seed: hparams-object form / a fresh view differs')
+    if seed is not None and N <= 64:
+      # documented call style "hparams object + keyword overrides": every field, including the Optional
+      # ones reset to None, must be taken from the override
+      other = cds.ShuffleRepeatBatchHParams(batch_size=bs + 1, num_epochs=2 if E is None else None,
+                                            num_steps=3 if S is None else None, drop_remainder=not drop,
+                                            seed=seed + 1, skip_shuffle=not skip)
+      over = [[int(i) for i in b['id']] for b in take(ds.shuffle_repeat_batch(other, **kw))]
+      if over != ids:
+        problems.append('hparams object + keyword overrides (incl. overrides equal to None) differs from the '
+                        'keyword form')
     if any(not np.array_equal(raw[k], snap[k]) for k in snap) or set(raw) != set(snap):
       problems.append('raw examples mutated')
     return {'ids': ids, 'D': D, 'problems': problems, 'expect': expect}
